@@ -237,6 +237,12 @@ def invert(W, copy=True):
     '''
     if copy:
         W = W.copy()
+    if W.dtype.kind in 'biu':
+        # an integer matrix cannot hold 1/w (it would be truncated to zero)
+        if not copy:
+            raise BCTParamError('Cannot invert an integer matrix in place; '
+                                'pass a floating point matrix or copy=True')
+        W = W.astype(float)
     E = np.where(W)
     W[E] = 1. / W[E]
     return W
